@@ -1,6 +1,7 @@
 import PybropsModel.J
 import PybropsModel.Model.BVMat
 import PybropsModel.Model.BVMatSpec
+import PybropsModel.Model.BVMatState
 open Lean
 
 /-
@@ -11,6 +12,13 @@ Driver ops of C15.
                    IMPLEMENTATION's observations against the raw ground truth (`BVMat.runRaw`)
   c15.scaled       model of DenseScaledMatrix.transform/untransform/rescale/unscale
   c15.spec_scaled  Spec oracle for the same
+  c15.state        model: snapshots after from_numpy and after every direct edit of ONE object
+                   (element write, attribute re-assignment, inherited in-place taxa routine)
+  c15.spec_state   Spec oracle: the clauses that hold in any state (Spec.anyStateCol, retained raw values),
+                   each step judged against the implementation's own previous observation
+  c15.scaledh      model: DenseScaledMatrix call histories on a heap of arrays with identities
+                   (Scaled.trace): which array every call returns / writes, and all array contents
+  c15.spec_scaledh Spec oracle for such a history, each call judged against the state observed before it
 JSON: matrices are trait-major (list of columns), NaN is "nan" or null.
 -/
 namespace Drv.C15
@@ -31,11 +39,29 @@ def ofCols : List (Col Rat) → Json := J.ofList (J.ofList ofORat)
 
 def sq : Rat → Rat := ratSqrt
 
+/-- `"as":"self"`: the matrix is its own operand (`b.adjoin_taxa(b)`); the placeholder is replaced by the
+    current state when the operation is applied (`withSelf`) -/
+def selfMark : List Nat := [4294967295]
+
 def operand (j : Json) : J.R (Operand Rat) := do
+  let kind ← J.field j "as" J.str
+  if kind == "self" then return .nd [] selfMark
   let c ← J.field j "cols" cols
   let t ← J.field j "taxa" (J.list J.nat)
-  let kind ← J.field j "as" J.str
   if kind == "bv" then pure (.bv (fromNumpy sq c t)) else pure (.nd c t)
+
+def isSelf : Operand Rat → Bool
+  | .nd [] t => t == selfMark
+  | _ => false
+
+/-- replace the self placeholder by `v` -/
+def withSelf (v : Operand Rat) : OpIx Rat → OpIx Rat
+  | .insert obj w => .insert obj (if isSelf w then v else w)
+  | .plain (.insert k w) => .plain (.insert k (if isSelf w then v else w))
+  | .plain (.adjoin w) => .plain (.adjoin (if isSelf w then v else w))
+  | .plain (.append w) => .plain (.append (if isSelf w then v else w))
+  | .plain (.incorp k w) => .plain (.incorp k (if isSelf w then v else w))
+  | o => o
 
 def optInt (j : Json) : J.R (Option Int) :=
   match j with
@@ -107,15 +133,20 @@ def snapshot (b : BV Rat) : Json :=
     ("targmax", J.ofList J.ofNat (tr.map targmax)),
     ("targmin", J.ofList J.ofNat (tr.map targmin))]
 
+/-- the operation as the tree under test performs it: `repaired` = DenseBreedingValueMatrix overrides the
+    five inherited routines (the proposed patch for D23-D25, `applyOpRepaired`), else the code as it is -/
+def applyAs (repaired needs : Bool) (op : Op Rat) (b : BV Rat) : Except Err (BV Rat) :=
+  if repaired then applyOpRepaired sq op b else applyOp sq needs op b
+
 /-- snapshots after from_numpy and after each operation; stops at the first rejected operation -/
-def snapshots (needs : Bool) : List (OpIx Rat) → BV Rat → List Json
+def snapshots (repaired needs : Bool) : List (OpIx Rat) → BV Rat → List Json
   | [], b => [snapshot b]
   | o :: ops, b => snapshot b ::
-    match o.norm b.taxa.length with
+    match (withSelf (.bv b) o).norm b.taxa.length with
     | .error e => [J.obj [("err", J.ofStr (errTag e))]]
     | .ok op =>
-      match applyOp sq needs op b with
-      | .ok b' => snapshots needs ops b'
+      match applyAs repaired needs op b with
+      | .ok b' => snapshots repaired needs ops b'
       | .error e => [J.obj [("err", J.ofStr (errTag e))]]
 
 def opHistory : J.Op := fun j => do
@@ -123,7 +154,8 @@ def opHistory : J.Op := fun j => do
   let t ← J.field j "taxa" (J.list J.nat)
   let needs ← J.fieldD j "needs_loc_scale" J.bool false
   let ops ← J.field j "ops" (J.list opOf)
-  pure (J.ofList id (snapshots needs ops (fromNumpy sq c t)))
+  let repaired ← J.fieldD j "repaired" J.bool false
+  pure (J.ofList id (snapshots repaired needs ops (fromNumpy sq c t)))
 
 /-! ### the Spec oracle -/
 
@@ -194,14 +226,15 @@ def clauseOrder : List String :=
    "stat:tstd", "stat:tvar", "stat:tstd:constant", "stat:tvar:constant"]
 
 /-- failing clauses of one matrix state, in `clauseOrder` -/
-def specStep (tol : Tol) (mags : List Rat) (truth : Raw Rat) (o : ObsStep) : List String :=
+def specStep (tol : Tol) (mags : List Rat) (truth : Raw Rat) (o : ObsStep) (checkTaxa : Bool := true) :
+    List String :=
   if o.raised then ["raised"] else
   let t := truth.1.length
   let n := truth.2.length
   let idx := List.range t
   let fails : List String :=
     (if o.nonfinite then ["nonfinite"] else []) ++
-    (if o.taxa == truth.2 then [] else ["taxa"]) ++
+    (if o.taxa == truth.2 || !checkTaxa then [] else ["taxa"]) ++
     (if o.unscale.length == t && o.mat.length == t && o.loc.length == t && o.scale.length == t then
        (idx.map (fun j => Spec.specCol ratSqrt tol (mags.getD j 1) (n != 0 && o.hasStats)
                             (truth.1.getD j []) (obsCol o j))).flatten
@@ -213,13 +246,28 @@ def specStep (tol : Tol) (mags : List Rat) (truth : Raw Rat) (o : ObsStep) : Lis
 def updMags (mags : List Rat) (r : Raw Rat) : List Rat :=
   r.1.zipIdx.map (fun ci => maxR (mags.getD ci.2 1) (magOf ci.1))
 
+/-- the clauses that hold in ANY state, against the implementation's own `unscale()`; `self:stat:tmean`
+    (the stored location against the mean of `unscale()`) is reported as well -/
+def selfStep (tol : Tol) (mags : List Rat) (o : ObsStep) : List String :=
+  if o.raised then [] else
+  let t := o.unscale.length
+  if o.mat.length == t && o.loc.length == t && o.scale.length == t then
+    ((List.range t).map (fun j =>
+      let oc := obsCol o j
+      let ws := oc.unscale.length != 0 && o.hasStats
+      Spec.anyStateCol ratSqrt tol (mags.getD j 1) ws oc ++
+        (if ws && oc.loc.isSome && oc.scale.isSome then Spec.selfMeanCol tol (mags.getD j 1) oc else []))).flatten.eraseDups
+  else ["formula"]
+
 /-- walk the history on the raw ground truth; one verdict per observed matrix state -/
-def specWalk (tol : Tol) : List Rat → List (OpIx Rat) → Raw Rat → List ObsStep → List Json
+def specWalk (tol : Tol) (checkTaxa : Bool) : List Rat → List (OpIx Rat) → Raw Rat → List ObsStep → List Json
   | _, _, _, [] => []
   | mags0, ops, r, o :: os =>
     let mags := updMags mags0 r
-    let fails := specStep tol mags r o
+    let fails := specStep tol mags r o checkTaxa
+    let self := selfStep tol (updMags mags (o.unscale, [])) o
     let here := J.obj [("ok", J.ofBool fails.isEmpty), ("fails", J.ofList J.ofStr fails),
+                       ("self", J.ofList J.ofStr self),
                        ("constant_trait", J.ofBool (r.1.any (fun c => !(present c).isEmpty && varL (present c) == 0))),
                        ("has_nan", J.ofBool (r.1.any (fun c => c.any Option.isNone)))]
     match ops with
@@ -227,21 +275,136 @@ def specWalk (tol : Tol) : List Rat → List (OpIx Rat) → Raw Rat → List Obs
     | o :: rest =>
       -- an operation that is not a valid request (shape / index): the property says nothing
       let invalid := [here, J.obj [("ok", J.ofBool true), ("fails", J.ofList J.ofStr []), ("invalid_op", J.ofBool true)]]
-      match o.norm r.2.length with
+      match (withSelf (.nd r.1 r.2) o).norm r.2.length with
       | .error _ => invalid
       | .ok op =>
         match applyRaw op r with
-        | .ok r' => here :: specWalk tol mags rest r' os
+        | .ok r' => here :: specWalk tol checkTaxa mags rest r' os
         | .error _ => invalid
+
+def tolOf (j : Json) : J.R Tol := do
+  pure { rel := (← J.fieldD j "rel" J.rat (1 / 1000000000)),
+         abs := (← J.fieldD j "abs" J.rat (1 / 1000000000000)) }
 
 def opSpec : J.Op := fun j => do
   let c ← J.field j "cols" cols
   let t ← J.field j "taxa" (J.list J.nat)
   let ops ← J.field j "ops" (J.list opOf)
   let obs ← J.field j "obs" (J.list obsStep)
-  let tol : Tol := { rel := (← J.fieldD j "rel" J.rat (1 / 1000000000)),
-                     abs := (← J.fieldD j "abs" J.rat (1 / 1000000000000)) }
-  pure (J.ofList id (specWalk tol [] ops (c, t) obs))
+  let checkTaxa ← J.fieldD j "check_taxa" J.bool true
+  pure (J.ofList id (specWalk (← tolOf j) checkTaxa [] ops (c, t) obs))
+
+/-! ### direct edits of one object (kind "state") -/
+
+inductive EditIx where
+  | edit (e : Edit Rat)
+  | op (o : OpIx Rat)
+
+def editOf (j : Json) : J.R EditIx := do
+  match ← J.field j "e" J.str with
+  | "setitem" => return .edit (.setItem (← J.field j "j" J.nat) (← J.field j "i" J.nat) (← J.field j "v" orat))
+  | "setmat" => return .edit (.setMat (← J.field j "cols" cols))
+  | "setloc" => return .edit (.setLoc (← J.field j "loc" (J.list orat)))
+  | "setscale" => return .edit (.setScale (← J.field j "scale" (J.list orat)))
+  | "op" => return .op (← opOf j)
+  | other => J.fail s!"unknown edit {other}"
+
+def EditIx.norm (n : Nat) : EditIx → Except Err (Edit Rat)
+  | .edit e => .ok e
+  | .op o => match o.norm n with
+    | .ok o' => .ok (Edit.op o')
+    | .error e => .error e
+
+def stateSnaps (repaired needs : Bool) : List EditIx → BV Rat → List Json
+  | [], b => [snapshot b]
+  | e :: es, b => snapshot b ::
+    match e.norm b.taxa.length with
+    | .error x => [J.obj [("err", J.ofStr (errTag x))]]
+    | .ok ed =>
+      match (match ed with
+             | .op o => applyAs repaired needs o b
+             | e => applyEdit sq needs e b) with
+      | .ok b' => stateSnaps repaired needs es b'
+      | .error x => [J.obj [("err", J.ofStr (errTag x))]]
+
+def opState : J.Op := fun j => do
+  let c ← J.field j "cols" cols
+  let t ← J.field j "taxa" (J.list J.nat)
+  let needs ← J.fieldD j "needs_loc_scale" J.bool false
+  let es ← J.field j "edits" (J.list editOf)
+  let repaired ← J.fieldD j "repaired" J.bool false
+  pure (J.ofList id (stateSnaps repaired needs es (fromNumpy sq c t)))
+
+/-- magnitude of what trait `j` of an observed state involves: 1 + max(|unscale|, |location|, |scale·mat|) -/
+def magState (o : ObsStep) (j : Nat) : Rat :=
+  let oc := obsCol o j
+  let sm := match oc.scale with
+    | some s => (present oc.mat).foldl (fun m x => maxR m (absR (s * x))) 0
+    | none => 0
+  let lm := match oc.loc with
+    | some l => absR l
+    | none => 0
+  maxR (magOf oc.unscale) (maxR sm lm + 1)
+
+/-- positions of the result of a taxa operation that hold a RETAINED taxon (`n` taxa before) -/
+def retainedMask (n : Nat) (m : Nat) : Op Rat → List Bool
+  | .append v => List.replicate n true ++ List.replicate v.taxa.length false
+  | .incorp k v => List.replicate (min k n) true ++ List.replicate v.taxa.length false ++ List.replicate (n - k) true
+  | _ => List.replicate m true
+
+/-- failing clauses of the state after one edit, judged against the state observed before it -/
+def stateStep (tol : Tol) (mags : List Rat) (prev : ObsStep) (e : EditIx) (o : ObsStep) : List String :=
+  if o.raised then ["raised"] else
+  let n := prev.taxa.length
+  let t := prev.unscale.length
+  let plan : Option (List Nat × List (Col Rat) × (Nat → List Bool)) :=
+    match e with
+    | .edit (.setItem j i _) =>
+        some (prev.taxa, prev.unscale, fun jj => (List.range n).map (fun ii => !(jj == j && ii == i)))
+    | .edit _ => some (prev.taxa, prev.unscale, fun _ => List.replicate n false)
+    | .op ox =>
+      match ox.norm n with
+      | .error _ => none
+      | .ok op =>
+        match applyRaw op (prev.unscale, prev.taxa) with
+        | .ok r' => some (r'.2, r'.1, fun _ => retainedMask n r'.2.length op)
+        | .error _ => none
+  match plan with
+  | none => []          -- not a valid request: the property says nothing
+  | some (expTaxa, expCols, mask) =>
+    let shapeOk := o.unscale.length == t && o.mat.length == t && o.loc.length == t && o.scale.length == t
+    (if o.nonfinite then ["nonfinite"] else []) ++
+    (if o.taxa == expTaxa then [] else ["taxa"]) ++
+    (if !shapeOk then ["retained", "formula"] else
+      ((List.range t).map (fun j =>
+        let oc := obsCol o j
+        let mag := mags.getD j 1
+        (if Spec.rawOkMask tol mag (mask j) (expCols.getD j []) oc.unscale then [] else ["retained"]) ++
+          Spec.anyStateCol ratSqrt tol mag (oc.unscale.length != 0 && o.hasStats) oc)).flatten.eraseDups)
+
+def stateWalk (tol : Tol) : List Rat → ObsStep → List EditIx → List ObsStep → List Json
+  | _, _, _, [] => []
+  | _, _, [], _ :: _ => []
+  | mags0, prev, e :: es, o :: os =>
+    let t := prev.unscale.length
+    let mags := (List.range t).map (fun j => maxR (mags0.getD j 1) (maxR (magState prev j) (magState o j)))
+    let fails := stateStep tol mags prev e o
+    J.obj [("ok", J.ofBool fails.isEmpty), ("fails", J.ofList J.ofStr fails)] ::
+      (if o.raised then [] else stateWalk tol mags o es os)
+
+def opSpecState : J.Op := fun j => do
+  let c ← J.field j "cols" cols
+  let t ← J.field j "taxa" (J.list J.nat)
+  let es ← J.field j "edits" (J.list editOf)
+  let obs ← J.field j "obs" (J.list obsStep)
+  let tol ← tolOf j
+  match obs with
+  | [] => pure (J.ofList id [])
+  | o0 :: os =>
+    let mags := updMags [] (c, t)
+    let f0 := specStep tol mags (c, t) o0
+    pure (J.ofList id (J.obj [("ok", J.ofBool f0.isEmpty), ("fails", J.ofList J.ofStr f0)] ::
+      (if o0.raised then [] else stateWalk tol mags o0 es os)))
 
 /-! ### DenseScaledMatrix -/
 
@@ -292,8 +455,142 @@ def opSpecScaled : J.Op := fun j => do
      else ["unscale_inplace"])
   pure <| J.obj [("ok", J.ofBool fails.isEmpty), ("fails", J.ofList J.ofStr fails.eraseDups)]
 
+/-! ### DenseScaledMatrix call histories on a heap of arrays (kind "scaledh") -/
+
+open Scaled in
+def srcOf (j : Json) : J.R (Src Rat) := do
+  if (j.getObjVal? "new").isOk then return .new (← J.field j "new" cols)
+  else return .ref (← J.field j "ref" J.nat)
+
+open Scaled in
+def stepOf (j : Json) : J.R (Step Rat) := do
+  match ← J.field j "op" J.str with
+  | "transform" => return .transform (← srcOf j) (← J.field j "copy" J.bool)
+  | "untransform" => return .untransform (← srcOf j) (← J.field j "copy" J.bool)
+  | "rescale" => return .rescale (← J.field j "inplace" J.bool)
+  | "unscale" => return .unscale (← J.field j "inplace" J.bool)
+  | other => J.fail s!"unknown DenseScaledMatrix call {other}"
+
+def ofHeap (h : Scaled.Heap Rat) (res : Nat) : Json :=
+  J.obj [("res", J.ofNat res), ("mat", J.ofNat h.mat), ("loc", J.ofNat h.loc), ("scale", J.ofNat h.scale),
+         ("arrs", J.ofList ofCols h.arrs)]
+
+def heap0 (j : Json) : J.R (Scaled.Heap Rat) := do
+  let a ← J.field j "arrs0" (J.list cols)
+  pure { arrs := a, mat := 0, loc := 1, scale := 2 }
+
+def opScaledH : J.Op := fun j => do
+  let h ← heap0 j
+  let steps ← J.field j "steps" (J.list stepOf)
+  pure (J.ofList (fun r => ofHeap r.1 r.2) (Scaled.trace sq h steps))
+
+structure SObs where
+  raised : Bool
+  res : Nat
+  heap : Scaled.Heap Rat
+
+def sObs (j : Json) : J.R SObs := do
+  if (j.getObjVal? "raised").isOk then
+    pure { raised := true, res := 0, heap := { arrs := [], mat := 0, loc := 0, scale := 0 } }
+  else
+    pure { raised := false, res := (← J.field j "res" J.nat),
+           heap := { arrs := (← J.field j "arrs" (J.list cols)), mat := (← J.field j "mat" J.nat),
+                     loc := (← J.field j "loc" J.nat), scale := (← J.field j "scale" J.nat) } }
+
+/-- 1 + the largest magnitude trait `k` involves: the values, the location, scale·stored -/
+def magTrait (tr : Trait Rat) (extra : Col Rat) : Rat :=
+  let sm := match tr.scale with
+    | some s => (present tr.mat).foldl (fun m x => maxR m (absR (s * x))) 0
+    | none => 0
+  let lm := match tr.loc with
+    | some l => absR l
+    | none => 0
+  maxR (magOf extra) (maxR sm lm + 1)
+
+def sameCols (tol : Tol) (mags : List Rat) (a b : List (Col Rat)) : Bool :=
+  a.length == b.length && (List.zip (List.range a.length) (List.zip a b)).all
+    (fun p => Spec.rawOk tol (mags.getD p.1 1) p.2.1 p.2.2)
+
+open Scaled in
+/-- failing clauses of one DenseScaledMatrix call, judged against the state observed before it -/
+def scaledStep (tol : Tol) (prev : Heap Rat) (st : Step Rat) (o : SObs) : List String :=
+  if o.raised then ["raised"] else
+  let before := prev.traits
+  let after := o.heap.traits
+  let t := before.length
+  let res := o.heap.get o.res
+  let params (ts : List (Trait Rat)) := ts.map (fun tr => (tr.loc, tr.scale))
+  let idx := List.range t
+  match st with
+  | .transform x copy =>
+      let (h1, xi) := prev.src x
+      let xb := h1.get xi
+      let mags := idx.map (fun k => magTrait (before.getD k ⟨[], none, none⟩) (xb.getD k []))
+      -- result·scale + location reproduces x; with a NaN location / scale (trait without any value) all is NaN
+      let want := List.zipWith (fun tr p => if tr.loc.isSome && tr.scale.isSome then p.1 else p.2.map (fun _ => none))
+                    before (List.zip xb res)
+      (if res.length == t && sameCols tol mags want (List.zipWith untransformCol before res) then [] else ["transform"]) ++
+      (if copy && o.heap.get xi != xb then ["copy_mutated"] else []) ++
+      (if xi == prev.mat && !copy then (if params after == params before then [] else ["state_changed"])
+       else (if after == before then [] else ["state_changed"]))
+  | .untransform x copy =>
+      let (h1, xi) := prev.src x
+      let xb := h1.get xi
+      let want := List.zipWith untransformCol before xb
+      let mags := idx.map (fun k => magTrait (before.getD k ⟨[], none, none⟩) (want.getD k []))
+      (if res.length == t && sameCols tol mags want res then [] else ["untransform"]) ++
+      (if copy && o.heap.get xi != xb then ["copy_mutated"] else []) ++
+      (if xi == prev.mat && !copy then (if params after == params before then [] else ["state_changed"])
+       else (if after == before then [] else ["state_changed"]))
+  | .rescale inplace =>
+      let truth := before.map scaledUnscaleCol
+      let mags := idx.map (fun k => magTrait (before.getD k ⟨[], none, none⟩) (truth.getD k []))
+      if inplace then
+        let un1 := after.map scaledUnscaleCol
+        (if sameCols tol mags truth un1 then [] else ["rescale_raw"]) ++
+        (if after.length == t then idx.filterMap (fun k =>
+            match after[k]? with
+            | some r => (Spec.standardisedCol ratSqrt tol (mags.getD k 1) (truth.getD k []) r.mat (un1.getD k []) r.loc r.scale).map
+                          (fun s => "rescale_" ++ s)
+            | none => some "rescale_standardised") else ["rescale_standardised"]) ++
+        (if res == after.map (·.mat) then [] else ["result"])
+      else
+        let exact := before.map (rescaleCol ratSqrt)
+        let back := List.zipWith untransformCol exact res
+        (if res.length == t && sameCols tol mags truth back then [] else ["rescale_raw"]) ++
+        (idx.filterMap (fun k =>
+            match exact[k]? with
+            | some r => (Spec.standardisedCol ratSqrt tol (mags.getD k 1) (truth.getD k []) (res.getD k []) (back.getD k [])
+                          r.loc r.scale).map (fun s => "rescale_" ++ s)
+            | none => some "rescale_standardised")) ++
+        (if after == before then [] else ["state_changed"])
+  | .unscale inplace =>
+      let truth := before.map scaledUnscaleCol
+      let mags := idx.map (fun k => magTrait (before.getD k ⟨[], none, none⟩) (truth.getD k []))
+      (if sameCols tol mags truth res then [] else ["unscale"]) ++
+      (if inplace then
+         (if after.length == t && after.all (fun r => r.loc == some 0 && r.scale == some 1) && res == after.map (·.mat)
+          then [] else ["unscale_inplace"])
+       else (if after == before then [] else ["state_changed"]))
+
+def scaledWalk (tol : Tol) : Scaled.Heap Rat → List (Scaled.Step Rat) → List SObs → List Json
+  | _, _, [] => []
+  | _, [], _ :: _ => []
+  | prev, st :: sts, o :: os =>
+    let fails := (scaledStep tol prev st o).eraseDups
+    J.obj [("ok", J.ofBool fails.isEmpty), ("fails", J.ofList J.ofStr fails)] ::
+      (if o.raised then [] else scaledWalk tol o.heap sts os)
+
+def opSpecScaledH : J.Op := fun j => do
+  let h ← heap0 j
+  let steps ← J.field j "steps" (J.list stepOf)
+  let obs ← J.field j "obs" (J.list sObs)
+  pure (J.ofList id (scaledWalk (← tolOf j) h steps obs))
+
 def ops : List (String × J.Op) :=
   [("c15.history", opHistory), ("c15.spec", opSpec),
-   ("c15.scaled", opScaled), ("c15.spec_scaled", opSpecScaled)]
+   ("c15.scaled", opScaled), ("c15.spec_scaled", opSpecScaled),
+   ("c15.state", opState), ("c15.spec_state", opSpecState),
+   ("c15.scaledh", opScaledH), ("c15.spec_scaledh", opSpecScaledH)]
 
 end Drv.C15
